@@ -31,8 +31,9 @@ Definition rt_eq := op_eq I64.
 Definition rt_ne := op_ne I64.
 Definition rt_idiv (nochecks : bool) := emit_idiv idiv_guard_first base_mode I64 true nochecks.
 Definition rt_imod (nochecks : bool) := emit_imod imod_guard_first base_mode I64 true nochecks.
-Definition rt_shl (cnt_comptime : bool) := emit_shl base_mode I64 cnt_comptime.
-Definition rt_shr (cnt_comptime : bool) := emit_shr base_mode I64 cnt_comptime.
+(* the count is an int64 too (an untyped constant is int64) *)
+Definition rt_shl (cnt_comptime : bool) := emit_shl shl_fast_width_left base_mode I64 I64 cnt_comptime.
+Definition rt_shr (cnt_comptime : bool) := emit_shr shr_fast_width_left base_mode I64 I64 cnt_comptime.
 
 (* Lua side, as outcomes: a Lua error is OPanic *)
 Definition lua_out (o : option Z) : outcome := match o with Some v => ORet v | None => OPanic end.
